@@ -148,6 +148,7 @@ def constraint_specs():
             # one linear term on a label of its own (no constraint touches it) whose coefficient is an exact number that
             # binary floating point cannot hold: it has to come through subs() unchanged
             "exact_term": _pick([None, None, None, ["I", 62, 1], ["I", 53, 1], ["F", 1, 3], ["F", -7, 10]]),
+            "mag": _pick([0, 0, 0, 0, 0, -45, 30]),
         }))
     return st.sampled_from(["PCBO", "PCSO"]).flatmap(for_kind)
 
@@ -408,6 +409,15 @@ def _run_constraints(spec, rec, qv):
     values = list(spec["values"])
     used = _used_symbols(spec)
     classes = {kind, "subs_" + spec["subs_form"]}
+    mag = spec.get("mag") or 0
+    if mag:
+        # the whole model scaled by a power of two: the objective's coefficients and every weight (not the symbol that
+        # sits inside a constraint polynomial).  All comparisons are relative to the model's own magnitude.
+        sc = 2.0 ** mag
+        values = [v if i == KP else v * sc for i, v in enumerate(values)]
+        spec = dict(spec, objective=[[k, v * sc] for k, v in spec["objective"]], values=values, cancel=None,
+                    readme=None, exact_term=None)
+        classes.add("magnitude=2^%d" % mag)
     weight_syms = {c["sym"] for c in spec["calls"]}
     classes.add("symbols_shared" if len(weight_syms) < len(spec["calls"]) else
                 ("symbols_distinct" if len(spec["calls"]) > 1 else "single_call"))
